@@ -123,14 +123,14 @@ CasesFiles == CasesById({24})
 CasesAdd == CasesById({8, 14})
 
 NoDev == [sliceAny |-> FALSE, key0 |-> FALSE, addAny |-> FALSE, firstMatchOnly |-> FALSE, orientLink |-> FALSE,
-          dfsTreeFrag |-> FALSE, fragIdOrder |-> FALSE, itpGlobal |-> FALSE, cacheFF |-> FALSE, writerAppend |-> FALSE, flushLate |-> FALSE, canonMatch |-> FALSE]
-DevSliceAny == [NoDev EXCEPT !.sliceAny = TRUE]
-DevKey0 == [NoDev EXCEPT !.key0 = TRUE]
-DevAddAny == [NoDev EXCEPT !.addAny = TRUE]
-DevFirstMatchOnly == [NoDev EXCEPT !.firstMatchOnly = TRUE]
-DevOrientLink == [NoDev EXCEPT !.orientLink = TRUE]
-DevDfsTreeFrag == [NoDev EXCEPT !.dfsTreeFrag = TRUE]
-DevFragIdOrder == [NoDev EXCEPT !.fragIdOrder = TRUE]
+          dfsTreeFrag |-> FALSE, fragIdOrder |-> FALSE, itpGlobal |-> FALSE, cacheFF |-> FALSE, writerAppend |-> FALSE, flushLate |-> FALSE, canonMatch |-> FALSE, baseOnly |-> FALSE]
+DevSliceAny == [NoDev EXCEPT !.sliceAny = TRUE, !.baseOnly = TRUE]
+DevKey0 == [NoDev EXCEPT !.key0 = TRUE, !.baseOnly = TRUE]
+DevAddAny == [NoDev EXCEPT !.addAny = TRUE, !.baseOnly = TRUE]
+DevFirstMatchOnly == [NoDev EXCEPT !.firstMatchOnly = TRUE, !.baseOnly = TRUE]
+DevOrientLink == [NoDev EXCEPT !.orientLink = TRUE, !.baseOnly = TRUE]
+DevDfsTreeFrag == [NoDev EXCEPT !.dfsTreeFrag = TRUE, !.baseOnly = TRUE]
+DevFragIdOrder == [NoDev EXCEPT !.fragIdOrder = TRUE, !.baseOnly = TRUE]
 DevItpGlobal == [NoDev EXCEPT !.itpGlobal = TRUE]
 DevCacheFF == [NoDev EXCEPT !.cacheFF = TRUE]
 DevWriterAppend == [NoDev EXCEPT !.writerAppend = TRUE]
